@@ -179,6 +179,14 @@ def fam_reduce_ragged(rng):
     T = gen_pure(rng, rng.randint(0, 3), leaf=(["complex128", "complex128", "complex64"] if rng.random() < 0.2 else None))
     depth, dtype = R.list_depth(T)
     red = rng.choice(REDUCERS)
+    if rng.random() < 0.08:
+        # positions along the outer axis of ragged lists whose leaves are option-type (half of the time with nothing
+        # actually missing): the case where shifts are handed down through an option node
+        T = ("list", ("option", ("num", rng.choice(LEAF_ALL))))
+        depth, dtype = R.list_depth(T)
+        red = rng.choice(["argmin", "argmax"])
+        if rng.random() < 0.5:
+            L.NONE_P = 0.0
     if dtype == "complex64" and red == "prod":
         return None          # (products of float32 pairs are not exact for the generated values)
     vals = [L.gen_value(rng, T) for _ in range(L.toplen(rng, 0, 4))]
@@ -186,6 +194,8 @@ def fam_reduce_ragged(rng):
     if red in ("min", "max", "argmin", "argmax") and "nan" in repr(vals):
         return None
     axis = rng.randint(-depth, depth - 1)
+    if T == ("list", ("option", T[1][1])) and T[1][0] == "option" and red in ("argmin", "argmax") and depth == 2 and rng.random() < 0.8:
+        axis = rng.choice([0, -2])
     posaxis = axis + depth if axis < 0 else axis
     allow_indexed = True
     if isarg:
@@ -718,7 +728,8 @@ def _gen_jagged(rng, v, depth, boolean, none_p, row_p=0.0, top=True):
     if not top and row_p and rng.random() < row_p:
         return None
     if depth == 0:
-        n = len(v)
+        # (a record at this level: the index goes on into every field, so it must fit the shortest of them)
+        n = min([len(f) for f in v.values() if f is not None] or [0]) if isinstance(v, dict) else len(v)
         if boolean:
             return [None if rng.random() < none_p else (rng.random() < 0.5) for _ in range(n)]
         return [None if rng.random() < none_p else (rng.randint(-n, n - 1) if n else 0) for _ in range(rng.randint(0, 3) if n else 0)]
@@ -740,14 +751,21 @@ def _jag_type(depth, boolean, none_p, row_p=0.0):
 
 def fam_getitem_jagged(rng):
     """C01: a jagged integer or boolean array (optionally with missing entries) selects list by list"""
-    T = gen_pure(rng, rng.randint(1, 3), regular=0.0, optlist=0.0)
+    T = gen_pure(rng, rng.randint(1, 3), regular=0.0, optlist=0.0, leafrec=0.25)
+    through = rng.random() < 0.1
+    if through:
+        # lists of records whose fields are lists: a doubly jagged index passes through the record into every field
+        keys = ["x", "y"][:rng.randint(1, 2)]
+        T = ("list", ("record", keys, [("list", gen_pure(rng, 0, optlist=0.0)) for _ in keys]))
     vals = [L.gen_value(rng, T) for _ in range(L.toplen(rng, 0, 4))]
     lay = L.Enc(rng).encode(vals, T)
     levels = R._levels(("list", T))
     depth = rng.randint(1, levels - 1) if levels >= 2 else None
+    if through:
+        depth = 2
     if depth is None:
         return None
-    boolean = rng.random() < 0.35
+    boolean = rng.random() < 0.35 and not through
     none_p = 0.0 if rng.random() < 0.6 else 0.25         # missing entries inside the rows (integers and booleans)
     # whole rows of the index missing: one-level jagged indexes only (KF-C01-jagged-missing-rows-nested)
     row_p = 0.2 if (depth == 1 and rng.random() < 0.4) else 0.0
@@ -1074,14 +1092,29 @@ def fam_fields(rng):
     k = rng.randint(1, 3)
     keys = ["x", "y", "z"][:k]
     leafT = ("record", keys, [gen_pure(rng, rng.randint(0, 1), optlist=0.0) for _ in range(k)])
+    mixed = rng.random() < 0.12
+    if mixed:
+        # records of two types that share the field "x" (numbers of possibly different kinds): projecting "x" makes
+        # the two branches mergeable, so the projection may collapse the union
+        other = rng.choice(["y", "z"])
+        r1 = ("record", ["x", other], [("num", rng.choice(["int64", "float64", "int32"])), gen_pure(rng, rng.randint(0, 1), optlist=0.0)])
+        k2 = ["x", "w"] if rng.random() < 0.5 else ["w", "x"]
+        t2 = {"x": ("num", rng.choice(["int64", "float64"])), "w": gen_pure(rng, rng.randint(0, 1), optlist=0.0)}
+        r2 = ("record", k2, [t2[kk] for kk in k2])
+        leafT = ("union", [r1, r2])
+        keys = ["x"]
     T = leafT
     for _ in range(rng.randint(0, 2)):
         T = ("list", T) if rng.random() < 0.7 else ("option", ("list", T))
-    if rng.random() < 0.3:
+    if rng.random() < (0.6 if mixed else 0.3):
         T = ("option", T) if T[0] != "option" else T
-    vals = [L.gen_value(rng, T) for _ in range(L.toplen(rng, 0, 4))]
+    vals = [L.gen_value(rng, T) for _ in range(L.toplen(rng, 0 if not mixed else 2, 4))]
     lay = L.Enc(rng).encode(vals, T)
-    if rng.random() < 0.5:
+    if mixed and rng.random() < 0.5:
+        return Case("getitem_field x %s" % lay.tokens(),
+                    expect_value(R.project(vals, "x"), "x['x'] of %r" % (vals,), cmp=L.same),
+                    {"value": vals, "mixed": True})
+    if rng.random() < 0.5 and not mixed:
         key = rng.choice(keys)
         inner = expect_value(R.project(vals, key), "x[%r] of %r" % (key, vals), cmp=L.same)
         Tp = R._project_type(T, key)
@@ -1111,7 +1144,7 @@ def fam_fields(rng):
             return {kk: v[kk] for kk in sel}
         return [proj(e) for e in v]
     return Case("getitem_fields %d %s %s" % (len(sel), " ".join(sel), lay.tokens()),
-                expect_value(proj(vals), "x[%r] of %r" % (sel, vals), cmp=L.same), {"value": vals})
+                expect_value(proj(vals), "x[%r] of %r" % (sel, vals), cmp=L.same), {"value": vals, "mixed": mixed})
 
 
 def fam_broadcast(rng):
@@ -1445,6 +1478,42 @@ def _mutate_invalid(rng, lay):
     """break one documented structural rule at one node (in place); returns a description or None"""
     nodes = _nodes(lay)
     rng.shuffle(nodes)
+    if rng.random() < 0.15:
+        # malformed string / categorical parameters
+        strings = [nd for nd in nodes if L.isstringparam(nd) and isinstance(nd.content, L.NP)]
+        if strings and rng.random() < 0.8:
+            nd = strings[0]
+            inner = nd.content
+            chpar = dict(inner.params or {})
+            n = inner.length()
+            k = rng.choice(["wrapped+param", "wrapped", "noparam", "dtype", "swapped"])
+            if k == "wrapped+param":
+                inner.params = None
+                wrap = rng.choice(["ix", "um", "io"])
+                nd.content = (L.IX("64", list(range(n)), inner) if wrap == "ix" else L.UM(inner) if wrap == "um"
+                              else L.IO("64", list(range(n)), inner)).with_params(chpar)
+                return "the character node of a string is not a NumpyArray (the wrapper carries the char/byte parameter)"
+            if k == "wrapped":
+                nd.content = L.UM(inner) if rng.random() < 0.5 else L.IX("64", list(range(n)), inner)
+                return "a string does not directly contain its character node"
+            if k == "noparam":
+                inner.params = None
+                return "the content of a string has no char/byte parameter"
+            if k == "dtype":
+                inner.dtype = rng.choice(["int8", "int64", "bool"])
+                if inner.dtype == "bool":
+                    inner.buf = [int(bool(x)) for x in inner.buf]
+                else:
+                    inner.buf = [x % 128 for x in inner.buf]
+                return "the character node of a string is not uint8"
+            inner.params = {"__array__": '"byte"' if chpar.get("__array__") == '"char"' else '"char"'}
+            return "string over byte / bytestring over char"
+        plain = [nd for nd in nodes if not nd.params and not isinstance(nd, (L.LO, L.LA, L.RG, L.IX, L.IO))]
+        if plain:
+            nd = plain[0]
+            par = rng.choice(['"string"', '"bytestring"', '"char"', '"byte"', '"categorical"'])
+            nd.with_params({"__array__": par})
+            return "__array__ = %s on a %s node outside a string" % (par, type(nd).__name__)
     for nd in nodes:
         if isinstance(nd, L.LO) and len(nd.offsets) >= 2:
             k = rng.random()
@@ -1576,10 +1645,11 @@ def _gen_pyvalue(rng, depth):
         if k < 0.3:
             return rng.random() < 0.5
         if k < 0.6:
-            return rng.randint(-5, 9)
+            # (now and then an integer that a float32 cannot hold, or beyond 2**53)
+            return rng.randint(-5, 9) if rng.random() < 0.9 else rng.choice([16777217, 123456789, -2147483649, 4294967297])
         if k < 0.8:
             return rng.randint(-8, 8) / 2.0
-        return rng.choice(["a", "bc", "", "xyz"])
+        return rng.choice(["a", "bc", "", "xyz", "a\x00b", "\x00"])
     if r < 0.75:
         return [_gen_pyvalue(rng, depth - 1) for _ in range(rng.randint(0, 3))]
     if r < 0.92:
@@ -1599,7 +1669,7 @@ def _builder_cmds(v, out):
     elif isinstance(v, float):
         out.append("real %r" % v)
     elif isinstance(v, str):
-        out.append("str %s" % (v if v else "''"))
+        out.append("str %s" % (v.replace("\x00", "%00") if v else "''"))
     elif isinstance(v, list):
         out.append("beginlist")
         for e in v:
@@ -1723,7 +1793,7 @@ class _Shim:
 
 
 VIRTUAL_SUBFAMILIES = ["tolist", "carry_range", "getitem_basic", "getitem_array", "reduce_ragged", "num", "flatten",
-                       "localindex", "rpad", "sort", "combinations", "fields", "fields"]
+                       "localindex", "rpad", "sort", "combinations", "fields", "fields", "reduce_rect"]
 
 
 def fam_virtual(rng):
@@ -1746,6 +1816,13 @@ def fam_virtual(rng):
     decl_length = rng.choice([-1, -2, -2])
     decl_form = rng.choice([0, 1, 1])
     fail_first = 1 if rng.random() < 0.15 else 0
+    if inner.info.get("mixed"):
+        # KF-C18-lazy-field-of-union-form: a declared form -- or one inferred by an earlier materialisation that the
+        # cache has not kept -- with a union of records refuses x["f"]
+        decl_form, keep = 0, -1
+    # a third of the cases: the VirtualArray is the CONTENT of the outermost list / regular / indexed / option node
+    # (operations then carry or slice a virtual content; the driver re-reads every virtual input after the call)
+    opname = "virtual_inner" if rng.random() < 0.33 else "virtual"
 
     def check(r):
         if r.status != "OK":
@@ -1762,7 +1839,7 @@ def fam_virtual(rng):
         if fail_first and first == "no-exception" and calls > 0:
             return ("value", "the first generation failed but the operation did not raise")
         return None
-    return Case("virtual %d %d %d %d %s" % (keep, decl_length, decl_form, fail_first, inner.line), check, inner.info)
+    return Case("%s %d %d %d %d %s" % (opname, keep, decl_length, decl_form, fail_first, inner.line), check, inner.info)
 
 
 SHAREDUNION_SUBFAMILIES = ["tolist", "carry_range", "num", "flatten", "localindex", "rpad", "fillna", "reduce_ragged",
@@ -1788,6 +1865,68 @@ def fam_union_shared(rng):
             return (bad[0], "on union[x, x] with shared buffers (tag pattern %d): %s" % (pattern, bad[1]))
         return None
     return Case("sharedunion %d %s" % (pattern, inner.line), check, inner.info)
+
+
+def fam_union_windows(rng):
+    """C02/C08: a union of two overlapping windows of one array (x[0:n-1] and x[1:n]: views of the same buffers that
+    start at different positions), every element taken from one of them at its own position, is the array x"""
+    sub = rng.choice(SHAREDUNION_SUBFAMILIES + ["flatten", "flatten", "flatten", "num", "localindex"])
+    inner = None
+    for _ in range(10):
+        L.FIRST_EMPTY = rng.random() < 0.4      # (x[1:n] then starts at offset value 0 of a shifted offsets view)
+        inner = FAMILIES[sub][0](rng)
+        L.FIRST_EMPTY = False
+        if inner is not None:
+            break
+    if inner is None:
+        return None
+    pattern = rng.randint(1, 6)
+
+    def check(r):
+        bad = inner.check(r)
+        if bad:
+            return (bad[0], "on union[x[0:n-1], x[1:n]] (pattern %d): %s" % (pattern, bad[1]))
+        return None
+    return Case("windows %d %s" % (pattern, inner.line), check, inner.info)
+
+
+def fam_record_scalar(rng):
+    """C05/C09/C10: an operation applied to one record taken out of an array (a Record scalar) gives what it gives on
+    that record alone: local_index and num per field, fill_none, field projection, to_list"""
+    k = rng.randint(1, 3)
+    keys = ["x", "y", "z"][:k]
+    op = rng.choice(["tolist", "localindex", "num", "fillna", "field"])
+    if op in ("localindex", "num"):
+        subT = [gen_pure(rng, rng.randint(1, 2), optlist=0.0) for _ in range(k)]
+    elif op == "fillna":
+        subT = [("option", gen_pure(rng, rng.randint(0, 1), optlist=0.0, optleaf=0.0)) for _ in range(k)]
+    else:
+        subT = [gen_pure(rng, rng.randint(0, 2)) for _ in range(k)]
+    T = ("record", keys, subT)
+    n = rng.randint(1, 5)
+    vals = [L.gen_value(rng, T) for _ in range(n)]
+    i = rng.randrange(n)
+    lay = L.Enc(rng).encode(vals, T)
+    if not isinstance(lay, L.RC):
+        return None           # (an IndexedArray view of records: x[i] is taken through it, a different entry point)
+    rec = vals[i]
+    if op == "tolist":
+        return Case("record_at %d tolist %s" % (i, lay.tokens()), expect_value(rec, "to_list(x[%d]) of %r" % (i, vals), cmp=L.same, want_valid=False), {"value": vals})
+    if op == "field":
+        key = rng.choice(keys)
+        return Case("record_at %d getitem_field %s %s" % (i, key, lay.tokens()),
+                    lambda r, _c=expect_value(rec[key], "x[%d][%r] of %r" % (i, key, vals), cmp=L.same, want_valid=False): _c(r) if r.status != "OK" or not L.same(r.value, rec[key]) else None,
+                    {"value": vals})
+    if op == "fillna":
+        fill = 7
+        ref = {kk: (fill if rec[kk] is None else rec[kk]) for kk in keys}
+        return Case("record_at %d fillna np int64 1 %d %s" % (i, fill, lay.tokens()),
+                    expect_value(ref, "fill_none(x[%d], %d) of %r" % (i, fill, vals), want_valid=False), {"value": vals})
+    # per field, along the first axis inside the record (axis=1 of the one-record array)
+    fn = R.localindex if op == "localindex" else R.num
+    ref = {kk: fn([rec[kk]], 1)[0] for kk in keys}
+    return Case("record_at %d %s 1 %s" % (i, op, lay.tokens()),
+                expect_value(ref, "%s(x[%d], axis=1) of %r" % (op, i, vals), want_valid=False), {"value": vals})
 
 
 def fam_virtual_enforce(rng):
@@ -1962,6 +2101,8 @@ FAMILIES = {
     "astype": (fam_astype, ["C08"]),
     "simplify_union": (fam_simplify_union, ["C08"]),
     "union_shared": (fam_union_shared, ["C02", "C08"]),
+    "union_windows": (fam_union_windows, ["C02", "C08"]),
+    "record_scalar": (fam_record_scalar, ["C05", "C09", "C10"]),
     "fields": (fam_fields, ["C01", "C10"]),
     "field_slices": (fam_field_slices, ["C10"]),
     "setitem_field": (fam_setitem_field, ["C10"]),
@@ -1991,6 +2132,7 @@ def generate(family, n, seed):
     tries = 0
     while len(out) < n and tries < 20 * n:
         tries += 1
+        L.NONE_P = 0.0 if rng.random() < 0.2 else 0.3
         try:
             c = fn(rng)
         except (R.Refuse, FR.Unsupported, OverflowError, RecursionError, ZeroDivisionError):
